@@ -16,7 +16,7 @@ ASSUMPTIONS = ["atom -> residue membership is read from the atoms' resid attribu
 BUDGET = {"quick": 420, "thorough": 2400}
 
 PAIRS_Q = [["bbA", "a_c"], ["a_c", "edge_only"], ["bbA", "rm"], ["pat", "circ"], ["lab", "bbA"], ["nonedge", "bbA"],
-           ["star", "bbA"], ["gt", "rm"], ["lt_sa", "pat"], ["edge_only", "rm"]]
+           ["star", "bbA"], ["gt", "rm"], ["lt_sa", "pat"], ["edge_only", "rm"], ["rm0", "gt"], ["rm0", "lt_sa"], ["rm0", "rm"]]
 
 
 def cases(tier):
